@@ -1,6 +1,8 @@
 use std::env;
 
 fn main() {
+    // verification hooks are compiled only with RUSTFLAGS="--cfg sourmash_verif"
+    println!("cargo:rustc-check-cfg=cfg(sourmash_verif)");
     let crate_dir = env::var("CARGO_MANIFEST_DIR").unwrap();
     copy_c_bindings(&crate_dir);
 }
